@@ -110,7 +110,8 @@ let () =
                the writer without "defer w.dedupe.reset()" (used by tests of the check only)
      ops '/' separated:  W<rows> (rows '|' separated, cells ';' separated as for c10.run)  F (Flush)
                C (Close)  R (Reset); the rows are numbered 0,1,2,... in the order they appear
-   answer: the row numbers of every closed file in order: files '|' separated, numbers ',' separated (hex) *)
+   answer: the row numbers of every closed file in order: files '|' separated ("-" when no file was
+           closed), numbers ',' separated (hex), "_" for a file without rows *)
 let cell_of_wtok t =
   match wval_of_tok t with
   | Model.WVal v -> (Some v, Model.N0)
@@ -137,7 +138,7 @@ let () =
         let ops = if ops = "_" then [] else List.map op_of (String.split_on_char '/' ops) in
         let files = Model.c10_sw sorting (nat_of_int (int_of_string ("0x" ^ maxrows)))
                       (bool_of_tok dedupe) (bool_of_tok keep) ops in
-        if files = [] then "_" else
+        if files = [] then "-" else
         String.concat "|" (List.map (fun f ->
           if f = [] then "_" else String.concat "," (List.map (fun n -> Printf.sprintf "%x" (int_of_nat n)) f)) files)
     | _ -> failwith "c10.sw args")
